@@ -44,6 +44,7 @@ type site struct {
 var (
 	sites   []site
 	noPoint = flag.Bool("nopoints", false, "do not insert statement-level preemption points")
+	withTests = flag.Bool("tests", false, "also transform *_test.go files (translation validation: the packages' own tests on the transformed tree)")
 )
 
 func fatalf(format string, a ...interface{}) {
@@ -660,7 +661,7 @@ func main() {
 		}
 		var names []string
 		for _, e := range ents {
-			if e.IsDir() || !strings.HasSuffix(e.Name(), ".go") || strings.HasSuffix(e.Name(), "_test.go") {
+			if e.IsDir() || !strings.HasSuffix(e.Name(), ".go") || (strings.HasSuffix(e.Name(), "_test.go") && !*withTests) {
 				continue
 			}
 			names = append(names, e.Name())
